@@ -15,12 +15,17 @@ def conditions(tier, seed):
         Cond('build_value', 'c12_load.py', {}, func='check_value', timeout=t,
              bound='7 column types x 21 value tokens x positional/named insert; second column varied with the first fixed to UNIQUE_ID',
              case_split=['ti', 'ki', 'named', 't2', 'k2']),
+        Cond('build_arity', 'c12_load.py', {}, func='check_arity', timeout=t,
+             bound='INSERT with 0..3 names (optionally repeated) x 0..3 values into a class with 1..2 attributes',
+             case_split=['nn', 'nv', 'na', 'dup']),
         Cond('build_schema', 'c12_load.py', {}, func='check_schema', timeout=t,
-             bound='association naming defined/undefined classes and present/missing key attributes (3^4 combinations) x with/without rows x 9 unique-index targets',
+             bound='association naming defined/undefined classes and present/missing key attributes (3^2 x 4^2 combinations; the two classes have different attribute sets) x with/without rows x 12 unique-index targets',
              case_split=['ri', 'ui']),
-        Cond('input_texts', 'c12_load.py', {}, func='check_input_seq', timeout=t,
-             bound='every sequence of three input() calls from the pool of 10 texts on one loader',
-             case_split=['a', 'b', 'c'], realised=['texts']),
+    ] + [
+        Cond('input_texts_s%d' % sh, 'c12_load.py', dict(shard=sh, nshards=16), func='check_input_seq', timeout=t,
+             bound='every sequence of three input() calls from the pool of 13 texts on one loader (shard %d/16); builds before / after every rejected call and against a fresh loader' % sh,
+             case_split=['si (sequence)'], realised=['texts'], twin=(sh == 0)) for sh in range(16)
+    ] + [
         Cond('input_stub', 'c12_load.py', {}, func='check_input_stub', timeout=t,
              bound='three input() calls, parser stub outcomes: raise / return 0,1,2 statements',
              case_split=['o1', 'o2', 'o3']),
